@@ -36,6 +36,8 @@ var c19Strings = []string{"", "plain", "<b>html & \"quotes\"</b>", "unicode Ã© ä
 
 var c19Statuses = []int{200, 201, 204, 301, 302, 400, 404, 500}
 
+var c19Callbacks = []string{"cb", "angular.callbacks._0", "$cb", "a[0]", "jQuery1_2", "å›žè°ƒ"}
+
 type c19Case struct {
 	Kind   string `json:"kind"` // helper | render | negotiate
 	Helper string `json:"helper,omitempty"`
@@ -223,6 +225,8 @@ func c19Run(c c19Case, st *fw.Stats) []fw.Viol {
 				for _, v := range c19Values() {
 					for _, preset := range []string{"", "x/custom", "status500|"} {
 						v, status := v, status
+						// the callback name is emitted as given
+						cbName := c19Callbacks[(status/100+len(preset))%len(c19Callbacks)]
 						_, isX := v.(c19XML)
 						_, isXP := v.(*c19XML)
 						if c.Helper == "XML" && !isX && !isXP {
@@ -237,7 +241,7 @@ func c19Run(c c19Case, st *fw.Stats) []fw.Viol {
 							case "JSON":
 								ctx.JSON(status, v)
 							case "JSONP":
-								ctx.JSONP(status, "cb", v)
+								ctx.JSONP(status, cbName, v)
 							case "XML":
 								ctx.XML(status, v)
 							}
@@ -249,10 +253,10 @@ func c19Run(c c19Case, st *fw.Stats) []fw.Viol {
 								return jsonEq(b, v)
 							case "JSONP":
 								s := string(b)
-								if !strings.HasPrefix(s, "cb(") || !strings.HasSuffix(s, ");") {
+								if !strings.HasPrefix(s, cbName+"(") || !strings.HasSuffix(s, ");") {
 									return false
 								}
-								return jsonEq([]byte(s[3:len(s)-2]), v)
+								return jsonEq([]byte(s[len(cbName)+1:len(s)-2]), v)
 							default:
 								return xmlEq(b, v)
 							}
@@ -265,6 +269,17 @@ func c19Run(c c19Case, st *fw.Stats) []fw.Viol {
 				if c.Helper != "XML" {
 					for _, v := range c19Unencodable() {
 						v, status := v, status
+						// a Content-Type the caller has set survives a failed encode as well
+						wp, _, pvp := c19Serve("x/custom", func(ctx *rux.Context) {
+							if c.Helper == "JSON" {
+								ctx.JSON(status, v)
+							} else {
+								ctx.JSONP(status, "cb", v)
+							}
+						})
+						if pvp == nil && wp.Header().Get("Content-Type") != "x/custom" {
+							add("helper:preset-content-type-lost", fmt.Sprintf("%s(%d, unencodable %T) with preset Content-Type x/custom: Content-Type is now %q", c.Helper, status, v, wp.Header().Get("Content-Type")))
+						}
 						w, errs, pv := c19Serve("", func(ctx *rux.Context) {
 							if c.Helper == "JSON" {
 								ctx.JSON(status, v)
@@ -384,6 +399,11 @@ func c19Run(c c19Case, st *fw.Stats) []fw.Viol {
 				}
 				st.Evals++
 				var err error
+				wr := httptest.NewRecorder()
+				wr.Header().Set("Content-Type", "x/custom")
+				if pv := try(func() { _ = f(wr, v) }); pv == nil && wr.Header().Get("Content-Type") != "x/custom" {
+					add("render:preset-content-type-lost", fmt.Sprintf("%s(%T) failed to encode and changed the preset Content-Type to %q", name, v, wr.Header().Get("Content-Type")))
+				}
 				if pv := try(func() { err = f(httptest.NewRecorder(), v) }); pv != nil {
 					add("render:panic-on-unencodable", fmt.Sprintf("%s(%T) panicked: %v", name, v, pv))
 				} else if err == nil {
